@@ -330,7 +330,7 @@ func itoa(i int) string {
 // outside the bubble (murex starts some at package init).
 //
 //go:norace
-func inBubble() bool { return time.Now().Year() < 2010 }
+func inBubble() bool { return time.Now().Unix() < 1262304000 } // 2010-01-01; Unix() needs no time.Local (lazily initialised under a sync.Once)
 
 //go:norace
 func (s *Sim) self() *task {
@@ -557,6 +557,7 @@ func (s *Sim) Run(root func()) (verdict Verdict) {
 	// listening, so that the Once is never first run by a task and then read "unsynchronised" by us
 	warm := time.NewTimer(time.Hour)
 	warm.Stop()
+	_ = time.Now().Year() // same for time.Local (initLocal runs under a sync.Once)
 	// the root goroutine is created with the race detector listening: what the caller prepared
 	// before Run happens-before everything the root task does
 	go func() {
@@ -599,8 +600,9 @@ func (s *Sim) Run(root func()) (verdict Verdict) {
 		}
 		if n == 0 {
 			live := int(atomic.LoadInt32(&s.live))
-			if waiters > 0 && live <= waiters {
-				// only fault actors are left: fire the earliest one now
+			if waiters > 0 {
+				// nothing else can run now (every other task is finished or blocked on a channel or a
+				// timer): fire the earliest fault actor
 				var first *task
 				for _, t := range s.parked {
 					if first == nil || t.until < first.until || (t.until == first.until && t.label < first.label) {
